@@ -20,7 +20,6 @@ import (
 
 	"github.com/honeytrap/honeytrap/director"
 	"github.com/honeytrap/honeytrap/event"
-	"github.com/honeytrap/honeytrap/listener"
 	"github.com/honeytrap/honeytrap/pushers"
 )
 
@@ -53,12 +52,12 @@ func (s *copyService) SetChannel(c pushers.Channel) {
 
 func (s *copyService) Handle(ctx context.Context, conn net.Conn) error {
 	defer conn.Close()
-	switch conn.(type) {
-	case *listener.DummyUDPConn:
+	switch conn.RemoteAddr().Network() {
+	case "udp":
 		defer s.c.Send(event.New(
 			EventOptions,
 			event.Category("copy"),
-			event.Type("tcp"),
+			event.Type("udp"),
 			event.SourceAddr(conn.RemoteAddr()),
 			event.DestinationAddr(conn.LocalAddr()),
 		))
@@ -74,11 +73,11 @@ func (s *copyService) Handle(ctx context.Context, conn net.Conn) error {
 		_, err = io.Copy(conn, conn2)
 
 		return err
-	case *net.TCPConn:
+	case "tcp":
 		defer s.c.Send(event.New(
 			EventOptions,
 			event.Category("copy"),
-			event.Type("udp"),
+			event.Type("tcp"),
 			event.SourceAddr(conn.RemoteAddr()),
 			event.DestinationAddr(conn.LocalAddr()),
 		))
